@@ -180,14 +180,19 @@ inductive CertOutcome where
   | cont | illegal | internal
 deriving DecidableEq, Repr
 
+/-- `l := p.Store.Latest(); l == nil || cert.GPBFTInstance > l.GPBFTInstance` -/
+def isFresh (s : Store) (c : Cert) : Bool :=
+  match s.latest? with
+  | none => true
+  | some l => decide (l < c.inst)
+
 /-- the body of `for cert := range ch` -/
 def pollCert (net : Nat) (st : PState) (res : PollRes) (c : Cert) : PState × PollRes × CertOutcome :=
   match stepCert net ⟨st.next, [], st.table, none⟩ c with
   | .error _ => (st, { res with status := .illegal }, .illegal)
   | .ok v =>
     let res := { res with received := res.received + 1 }
-    let fresh := match st.store.latest? with | none => true | some l => decide (l < c.inst)
-    if fresh then
+    if isFresh st.store c then
       match st.store.put c with
       | .error _ => (st, { res with internal := true }, .internal)
       | .ok s' => ({ next := v.next, table := v.table, store := s' }, { res with newCerts := res.newCerts + 1 }, .cont)
